@@ -78,7 +78,9 @@ print("when they arrived; 16 are caught now, and K2-c is not counted as a violat
 print("sub-agent of this round found defect D13 in the unmodified library (section 6).")
 print("Round 7 (ids L<n>-<a|b|c>): six new angles. Of 16, four were caught when they arrived (two of them thanks to a")
 print("generator extension or a monitor added the same hour for a sibling change); 14 are caught now, L4-a and L4-b (value")
-print("copies of packets) are not counted as violations (section 12.2, seventh round).\n")
+print("copies of packets) are not counted as violations (section 12.2, seventh round).")
+print("Round 8 (ids M<n>-<a|b|c>): the sub-agents also got a description of what the framework does. Of 10, four were caught")
+print("when they arrived; 9 are caught now (M6-a by the thorough tier only), M5-a is not counted (section 12.2, eighth round).\n")
 print("### 13.3 Property-preserving changes by independent sub-agents (`seeded/S<n>-<a..d>/`): must stay silent\n")
 print("Realistic changes that keep all 19 properties to the letter but alter observable behaviour, written as bait for")
 print("over-strict checks (each with a `show_test.go` that demonstrates the behavioural difference; S: round 4, Q: round 6). All 19 quick checks")
